@@ -20,6 +20,7 @@ From TucModel Require Import Base.Bytes Base.ListX Model.Bounds Spec.Resolve Pro
   Model.BoundsParse Spec.BoundsGrammar Tie.RsStr Tie.Gen_side_from_str Tie.Bridge_side_from_str Tie.Gen_ub_from_str Tie.Bridge_ub_from_str
   Tie.RsList Tie.Gen_ubl_unpack Tie.Bridge_ubl_unpack Tie.Gen_ubl_complement Tie.Bridge_ubl_complement
   Model.CutBytes Spec.BytesMode Tie.Gen_cut_bytes Tie.Bridge_cut_bytes
+  Model.CutStr Tie.Gen_fast_output_parts Tie.Bridge_fast_output_parts Tie.Gen_fast_cut_record Tie.Bridge_fast_cut_record Proofs.C02
   Proofs.C13 Proofs.C06 Proofs.C03Full Proofs.C19 Proofs.C18Iff.
 Import ListNotations.
 Local Open Scope Z_scope.
@@ -207,7 +208,34 @@ Proof.
   injection H6 as <-. exact Hr.
 Qed.
 
+(** C02 / C10, on the code as translated: for every option set of the fast path's domain whose bounds
+    come out of the parser, every record shorter than 2^31 - 3 bytes and WHATEVER the reused vector of
+    field starts holds on entry, the translated [cut_str_fast_lane] writes exactly what the model of the
+    GENERAL path prints for that record (and fails where it fails); it panics nowhere the general path's
+    model does not. *)
+Theorem tie_C02_fast_record_is_the_general_path : forall (o : opt) (l : list bof) (d : byte) (record : bytes) (scratch : list Z),
+  fast_eligible o = true -> from_vec l = Some (o_bounds o) -> Forall item_nz l ->
+  o_delim o = [d] -> Z.of_nat (length record) + 2 <= i32_max ->
+  match cut_str o record with
+  | Some r => of_rres_partial r (gen_fast_cut_record record (gf_of o d) scratch (lif (o_bounds o)))
+  | None => False
+  end.
+Proof.
+  intros o l d record scratch He Hv Hnz Hd Hlen.
+  rewrite (C02_record o l record He Hv Hnz).
+  apply tie_fast_cut_record; [exact Hd | exact Hlen |].
+  (* the bounds of the list are the parsed ones, with the last one marked: their left sides are not 0 *)
+  unfold from_vec in Hv. destruct (bounds_only l) eqn:Eb; [discriminate|]. injection Hv as Hv. rewrite <- Hv. cbn [items].
+  clear -Hnz. induction l as [|x l IH]; cbn [mark_last]; [constructor|].
+  inversion Hnz as [|? ? Hx Hl]; subst. destruct x as [b|f].
+  - destruct (bounds_only l); constructor; try (apply IH; exact Hl);
+      try (cbn [item_left_nz set_last bl]; apply nz_left; exact Hx).
+    eapply Forall_impl; [|exact Hl]. intros [b'|f'] H; cbn in *; [apply nz_left; exact H | exact I].
+  - constructor; [exact I | apply IH; exact Hl].
+Qed.
+
 Print Assumptions tie_try_into_range_spec.
+Print Assumptions tie_C02_fast_record_is_the_general_path.
 Print Assumptions tie_C06_byte_mode_exact.
 Print Assumptions tie_C15_list_complement.
 Print Assumptions tie_C18_bound_accepted_iff.
